@@ -279,8 +279,8 @@ fn do_stages(annotate: bool, files: Files) -> String {
     })
 }
 
-fn do_lex(src: String) -> String {
-    guarded(0, move || match hooks::lex(&src) {
+fn do_lex(src: String, budget: u64) -> String {
+    guarded(budget, move || match hooks::lex(&src) {
         Ok(toks) => {
             let v: Vec<String> = toks
                 .iter()
@@ -425,7 +425,7 @@ fn handle(line: &str) -> String {
             parse_files(&f[4..]),
         ),
         "stages" if f.len() >= 2 => do_stages(f[1] == "1", parse_files(&f[2..])),
-        "lex" if f.len() >= 2 => do_lex(unhex(f[1])),
+        "lex" if f.len() >= 2 => do_lex(unhex(f[1]), f.get(2).and_then(|b| b.parse().ok()).unwrap_or(0)),
         "repeat" if f.len() >= 5 => {
             // repeat annotate K T npollute (pollute files..) (files..)
             let np: usize = f[4].parse().unwrap_or(0);
